@@ -44,7 +44,9 @@ CONSTANTS
   FrameSize,             \* BoundedFrameFlow.frame_size; 0 = never cut (Manual flow)
   CheckFits,             \* TRUE: only statements that fit the tables (precondition of C01)
   AllowReject,           \* TRUE: SlotReject is enabled (C20)
-  HistLen                \* > 0: keep a history of that many statements and print it (simulation)
+  HistLen,               \* > 0: keep a history of that many statements and print it (simulation)
+  PoisonOnReject         \* TRUE: the code as it is (a failed row makes the stream refuse further use);
+                         \* FALSE: the design without that guard -- TLC must then find Good violated (non-vacuity of C20)
 
 NoTerm == <<"none">>
 None   == -1
@@ -253,7 +255,8 @@ SlotStep(term) ==      \* body of encode_spo / encode_quad for one slot
      /\ pc' = IF i = Arity THEN "commit" ELSE "slot"
   /\ UNCHANGED <<gcur, buf, rd, bad, hist>>
 
-SlotReject(term) ==    \* the encoder raises in this slot: rows so far are LOST, tables and rep are not rolled back
+SlotReject(term) ==    \* the encoder raises in this slot: rows so far are LOST, tables and rep are not rolled back,
+                       \* so the Stream marks itself failed and refuses every later call (Stream.ensure_usable)
   /\ pc = "slot" /\ AllowReject
   /\ LET i == Len(cur) + 1 IN
      /\ term \in Pool(i)
@@ -261,7 +264,7 @@ SlotReject(term) ==    \* the encoder raises in this slot: rows so far are LOST,
      /\ LET e == EncTerm(tabs, term) IN
         /\ e.rej # ""
         /\ tabs' = [e.tb EXCEPT !.C = NoClaims]
-  /\ pc' = "idle" /\ cur' = <<>> /\ rows' = <<>>
+  /\ pc' = (IF PoisonOnReject THEN "failed" ELSE "idle") /\ cur' = <<>> /\ rows' = <<>>
   /\ hist' = IF HistLen > 0 THEN Append(hist, [op |-> "reject", st |-> Append(cur, term), rows |-> <<>>]) ELSE hist
   /\ UNCHANGED <<rep, gcur, buf, rd, bad>>
 
@@ -362,7 +365,7 @@ BufBounded == FrameSize > 0 /\ PType # PT_GRAPHS => (pc = "idle" => buf < FrameS
 
 (* simulation: print the behaviour when the history is full *)
 PrintHist ==
-  (HistLen > 0 /\ pc = "idle" /\ Len(hist) >= HistLen /\ ~gopen)
+  (HistLen > 0 /\ ((pc = "idle" /\ Len(hist) >= HistLen /\ ~gopen) \/ pc = "failed"))
     => PrintT("BEHAVIOUR " \o ToJson([bad |-> bad, hist |-> hist]))
 
 View == <<tabs, rep, pc, cur, rows, gcur, buf, rd, bad>>
